@@ -4,7 +4,7 @@
    lists of (thread, pop-choice); s is the state after ANY such schedule. *)
 From Coq Require Import List Arith Bool.
 Import ListNotations.
-From V Require Import Model.Pool Proofs.Pool Proofs.PoolLock Proofs.PoolWake Proofs.PoolJobs Proofs.PoolFinal Gen.GenPool Harness.H18.
+From V Require Import Model.Pool Model.PoolRace Proofs.Pool Proofs.PoolLock Proofs.PoolWake Proofs.PoolJobs Proofs.PoolFinal Proofs.PoolRace Gen.GenPool Harness.H18.
 
 (* the source under test takes count_lock around process, notify_done and both phases of close
    (recomputed from Pyro5/svr_threads.py on every run) *)
@@ -118,6 +118,61 @@ Theorem C18_no_deadlock :
 Proof. exact pool_no_deadlock. Qed.
 Print Assumptions C18_no_deadlock.
 
+(* ---- racing closer (Model/PoolRace.v): Pool.close() runs in a second thread while the accept loop (do_close c = false)
+   is still submitting; r is the state after ANY schedule of accept loop (0), closer (1) and workers (2+i) ---- *)
+Theorem C18_race_pool_invariants :
+  forall (c : cfg) (sched : list (nat * nat)),
+  all_locked (lk c) = true -> wf_cfg c -> do_close c = false ->
+  let r := rrun c sched (rinit c) in let s := base r in
+  NoDup (idle s ++ busy s)
+  /\ (forall x, In x (idle s ++ busy s) -> x < nw s)
+  /\ length (idle s) + length (busy s) <= size c
+  /\ (m_pc (mn s) = MRelRefuse -> idle s = [] /\ length (busy s) = size c)
+  /\ (forall i j, i < nw s -> w_slot (ws s i) = Some j -> closed s = false -> In i (busy s) /\ ~ In i (idle s))
+  /\ (forall i, In i (idle s) -> w_slot (ws s i) = None).
+Proof. exact race_pool_invariants. Qed.
+Print Assumptions C18_race_pool_invariants.
+
+Theorem C18_race_lock_discipline :
+  forall (c : cfg) (sched : list (nat * nat)),
+  all_locked (lk c) = true -> wf_cfg c -> do_close c = false ->
+  let r := rrun c sched (rinit c) in let s := base r in
+  (mcs (m_pc (mn s)) = true -> lock s = Some 0)
+  /\ (mcs (m_pc (kl r)) = true -> lock s = Some 0)
+  /\ (mcs (m_pc (mn s)) = true -> mcs (m_pc (kl r)) = true -> False)
+  /\ (forall i, i < nw s -> wcs (w_pc (ws s i)) = true -> lock s = Some (S i))
+  /\ (forall i, i < nw s -> wcs (w_pc (ws s i)) = true -> mcs (m_pc (mn s)) = false /\ mcs (m_pc (kl r)) = false)
+  /\ (forall i k, i < nw s -> k < nw s -> wcs (w_pc (ws s i)) = true -> wcs (w_pc (ws s k)) = true -> i = k).
+Proof. exact race_lock_discipline. Qed.
+Print Assumptions C18_race_lock_discipline.
+
+(* once the closing thread has written closed (inside its first locked region): no submit is past its `closed` test,
+   no slot holds a job, and under any continuation the flag stays set and no job ever starts *)
+Theorem C18_race_close_cutoff :
+  forall (c : cfg) (sched : list (nat * nat)),
+  all_locked (lk c) = true -> wf_cfg c -> do_close c = false ->
+  let r := rrun c sched (rinit c) in let s := base r in
+  closed s = true ->
+  mpast (m_pc (mn s)) = false
+  /\ (forall i, i < nw s -> w_slot (ws s i) = None)
+  /\ mafter (m_pc (kl r)) = true
+  /\ forall more, closed (base (rrun c more r)) = true /\ started (base (rrun c more r)) = started s.
+Proof. exact race_close_cutoff. Qed.
+Print Assumptions C18_race_close_cutoff.
+
+(* a submit that tests `closed` after that is refused with PoolError and touches nothing else *)
+Theorem C18_race_submit_after_close_refused :
+  forall (c : cfg) (sched : list (nat * nat)),
+  all_locked (lk c) = true ->
+  let r := rrun c sched (rinit c) in let s := base r in
+  forall ch, closed s = true -> m_pc (mn s) = MClosedRd ->
+  exists r', accept_step c ch r = Some r'
+    /\ poolclosed (base r') = poolclosed s ++ [m_next (mn s)]
+    /\ m_pc (mn (base r')) = MRelClosed
+    /\ started (base r') = started s /\ refused (base r') = refused s /\ ws (base r') = ws s /\ idle (base r') = idle s /\ busy (base r') = busy s.
+Proof. exact race_submit_after_close_refused. Qed.
+Print Assumptions C18_race_submit_after_close_refused.
+
 Theorem C18_unlocked_bookkeeping_refuted :
   exists c sched, wf_cfg c /\ all_locked (lk c) = false /\
     let s := run c sched (init c) in size c < length (idle s) + length (busy s).
@@ -145,3 +200,12 @@ Example C18_nonvacuous_close :
   all_locked (lk c) = true /\ wf_cfg c /\ closed s = true /\ 0 < nw s /\ w_pc (ws s 0) = WRead1 /\ w_pc (ws s 0) <> WExit /\
   started s = [0; 1] /\ refused s = [2].
 Proof. exact pool_close_nonvacuous. Qed.
+
+Example C18_nonvacuous_race :
+  let c := mk_cfg 1 1 2 false (mk_lockcfg true true true true) in
+  let r1 := rrun c (repeat (0,0) 8 ++ repeat (1,0) 8 ++ [(0,0)]) (rinit c) in
+  let r2 := rrun c [(0,0)] r1 in
+  all_locked (lk c) = true /\ wf_cfg c /\ do_close c = false /\
+  closed (base r1) = true /\ m_pc (mn (base r1)) = MClosedRd /\ m_pc (kl r1) = CAcq2 /\
+  poolclosed (base r2) = [1] /\ started (base r2) = [] /\ w_slot (ws (base r2) 0) = None.
+Proof. exact race_nonvacuous. Qed.
